@@ -6,6 +6,8 @@ namespace Godi.Conc.Sh
   unfold cacheWrite; first | rfl | (split <;> rfl)
 @[simp] theorem cacheWrite_closedSig (s : Sh) (k : Key) (i : Inst) : (s.cacheWrite k i).closedSig = s.closedSig := by
   unfold cacheWrite; first | rfl | (split <;> rfl)
+@[simp] theorem cacheWrite_errSet (s : Sh) (k : Key) (i : Inst) : (s.cacheWrite k i).errSet = s.errSet := by
+  unfold cacheWrite; first | rfl | (split <;> rfl)
 @[simp] theorem cacheWrite_cancelled (s : Sh) (k : Key) (i : Inst) : (s.cacheWrite k i).cancelled = s.cancelled := by
   unfold cacheWrite; first | rfl | (split <;> rfl)
 @[simp] theorem cacheWrite_lock (s : Sh) (k : Key) (i : Inst) : (s.cacheWrite k i).lock = s.lock := by
@@ -39,6 +41,8 @@ namespace Godi.Conc.Sh
 @[simp] theorem childWrite_disposed (s : Sh) (c : Cid) : (s.childWrite c).disposed = s.disposed := by
   unfold childWrite; first | rfl | (split <;> rfl)
 @[simp] theorem childWrite_closedSig (s : Sh) (c : Cid) : (s.childWrite c).closedSig = s.closedSig := by
+  unfold childWrite; first | rfl | (split <;> rfl)
+@[simp] theorem childWrite_errSet (s : Sh) (c : Cid) : (s.childWrite c).errSet = s.errSet := by
   unfold childWrite; first | rfl | (split <;> rfl)
 @[simp] theorem childWrite_cancelled (s : Sh) (c : Cid) : (s.childWrite c).cancelled = s.cancelled := by
   unfold childWrite; first | rfl | (split <;> rfl)
@@ -76,6 +80,8 @@ namespace Godi.Conc.Sh
   unfold scopeWrite; first | rfl | (split <;> rfl)
 @[simp] theorem scopeWrite_closedSig (s : Sh) (c : Nat) : (s.scopeWrite c).closedSig = s.closedSig := by
   unfold scopeWrite; first | rfl | (split <;> rfl)
+@[simp] theorem scopeWrite_errSet (s : Sh) (c : Nat) : (s.scopeWrite c).errSet = s.errSet := by
+  unfold scopeWrite; first | rfl | (split <;> rfl)
 @[simp] theorem scopeWrite_cancelled (s : Sh) (c : Nat) : (s.scopeWrite c).cancelled = s.cancelled := by
   unfold scopeWrite; first | rfl | (split <;> rfl)
 @[simp] theorem scopeWrite_cache (s : Sh) (c : Nat) : (s.scopeWrite c).cache = s.cache := by
@@ -111,6 +117,8 @@ namespace Godi.Conc.Sh
 @[simp] theorem childDelete_disposed (s : Sh) (c : Cid) : (s.childDelete c).disposed = s.disposed := by
   unfold childDelete; first | rfl | (split <;> rfl)
 @[simp] theorem childDelete_closedSig (s : Sh) (c : Cid) : (s.childDelete c).closedSig = s.closedSig := by
+  unfold childDelete; first | rfl | (split <;> rfl)
+@[simp] theorem childDelete_errSet (s : Sh) (c : Cid) : (s.childDelete c).errSet = s.errSet := by
   unfold childDelete; first | rfl | (split <;> rfl)
 @[simp] theorem childDelete_cancelled (s : Sh) (c : Cid) : (s.childDelete c).cancelled = s.cancelled := by
   unfold childDelete; first | rfl | (split <;> rfl)
@@ -150,6 +158,8 @@ namespace Godi.Conc.Sh
   unfold scopeDelete; first | rfl | (split <;> rfl)
 @[simp] theorem scopeDelete_closedSig (s : Sh) (c : Nat) : (s.scopeDelete c).closedSig = s.closedSig := by
   unfold scopeDelete; first | rfl | (split <;> rfl)
+@[simp] theorem scopeDelete_errSet (s : Sh) (c : Nat) : (s.scopeDelete c).errSet = s.errSet := by
+  unfold scopeDelete; first | rfl | (split <;> rfl)
 @[simp] theorem scopeDelete_cancelled (s : Sh) (c : Nat) : (s.scopeDelete c).cancelled = s.cancelled := by
   unfold scopeDelete; first | rfl | (split <;> rfl)
 @[simp] theorem scopeDelete_cache (s : Sh) (c : Nat) : (s.scopeDelete c).cache = s.cache := by
@@ -188,6 +198,8 @@ namespace Godi.Conc.Sh
   unfold dispAppend; first | rfl | (split <;> rfl)
 @[simp] theorem dispAppend_closedSig (s : Sh) (i : Inst) : (s.dispAppend i).closedSig = s.closedSig := by
   unfold dispAppend; first | rfl | (split <;> rfl)
+@[simp] theorem dispAppend_errSet (s : Sh) (i : Inst) : (s.dispAppend i).errSet = s.errSet := by
+  unfold dispAppend; first | rfl | (split <;> rfl)
 @[simp] theorem dispAppend_cancelled (s : Sh) (i : Inst) : (s.dispAppend i).cancelled = s.cancelled := by
   unfold dispAppend; first | rfl | (split <;> rfl)
 @[simp] theorem dispAppend_cache (s : Sh) (i : Inst) : (s.dispAppend i).cache = s.cache := by
@@ -224,6 +236,8 @@ namespace Godi.Conc.Sh
   unfold alloc; first | rfl | (split <;> rfl)
 @[simp] theorem alloc_closedSig (s : Sh)  : (s.alloc).closedSig = s.closedSig := by
   unfold alloc; first | rfl | (split <;> rfl)
+@[simp] theorem alloc_errSet (s : Sh)  : (s.alloc).errSet = s.errSet := by
+  unfold alloc; first | rfl | (split <;> rfl)
 @[simp] theorem alloc_cancelled (s : Sh)  : (s.alloc).cancelled = s.cancelled := by
   unfold alloc; first | rfl | (split <;> rfl)
 @[simp] theorem alloc_cache (s : Sh)  : (s.alloc).cache = s.cache := by
@@ -259,6 +273,8 @@ namespace Godi.Conc.Sh
 @[simp] theorem userClose_disposed (s : Sh) (i : Inst) : (s.userClose i).disposed = s.disposed := by
   unfold userClose; first | rfl | (split <;> rfl)
 @[simp] theorem userClose_closedSig (s : Sh) (i : Inst) : (s.userClose i).closedSig = s.closedSig := by
+  unfold userClose; first | rfl | (split <;> rfl)
+@[simp] theorem userClose_errSet (s : Sh) (i : Inst) : (s.userClose i).errSet = s.errSet := by
   unfold userClose; first | rfl | (split <;> rfl)
 @[simp] theorem userClose_cancelled (s : Sh) (i : Inst) : (s.userClose i).cancelled = s.cancelled := by
   unfold userClose; first | rfl | (split <;> rfl)
